@@ -50,7 +50,7 @@ CHECKS = {
             "assumptions": INT_ASSUME + ["wall-clock time is an abstract monotone oracle: hook H6 makes the k-th engine check find the limit exceeded; the memory estimate is the modelled function of stack depth and iteration count"]},
     "C09": {"suites": [{"name": "lp", "suite": "lp", "quick": ["--count", 3000], "thorough": ["--count", 60000]},
                        {"name": "lp-exh", "suite": "lp", "quick": ["--mode", "exh", "--universe", 1], "thorough": ["--mode", "exh", "--universe", 2]}],
-            "assumptions": ["the simplex pivoting / LU code is not modelled: the theorems are about the terminal certificate (legalOptimal) and the standard-form transformation at exact rationals; that the implementation always ends in a legal state is validated per run by recomputing the certificate exactly from the returned basis, not proved",
+            "assumptions": ["the pivoting rules (entering / leaving choice with the code's tie-breaking, Phase I incl. its fallback, Phase II, iteration caps) are modelled at exact rationals (Model/Simplex.lean) and the sequence of bases visited is compared with the code (hook H10) on every run in which no decision input was rounded (about 55 % of the random runs, all exhaustive ones; the others are counted as trace:inexact); the floating-point LU factorisation is not modelled: the terminal state of EVERY run is validated by recomputing the certificate exactly from the returned basis",
                             "IEEE-754 rounding is outside the theorems; f64 data enter the model as exact rationals of their bit patterns"]},
     "C08": {"suites": [{"name": "opt", "suite": "opt", "quick": ["--count", 1500], "thorough": ["--count", 40000]},
                        {"name": "opt-exh", "suite": "opt", "quick": ["--mode", "exh", "--universe", 1], "thorough": ["--mode", "exh", "--universe", 2]}],
